@@ -69,11 +69,10 @@ func onlyLoadedOrStored(instr *ssa.IndexAddr) bool {
 }
 
 func spawnGoroutine(fr *frame, instr *ssa.Go, fn value, args []value) {
-	if sched != nil {
-		sched.spawn(fr, instr, fn, args)
-		return
+	if sched == nil {
+		sched = newScheduler(fr.i)
 	}
-	panic(engineAbort{"unsupported", "go statement outside a scheduler harness"})
+	sched.spawn(fr, instr, fn, args)
 }
 
 // Machine is an initialised interpreter: program loaded, package inits run.
@@ -218,6 +217,10 @@ func (m *Machine) RunPath(fn *ssa.Function, item Item, cfg *Config) (res PathRes
 	lastPanicStack = ""
 	m.Solver.Begin()
 	defer func() {
+		if sched != nil {
+			sched.kill()
+			sched = nil
+		}
 		m.Solver.End()
 		P = nil
 	}()
@@ -248,9 +251,7 @@ func (m *Machine) RunPath(fn *ssa.Function, item Item, cfg *Config) (res PathRes
 				p.res.Violations = append(p.res.Violations, Violation{ID: "panic", Kind: "panic", Msg: p.res.Msg, Vector: p.vector(), Inputs: p.renderInputs()})
 			}
 		}()
-		if sched != nil {
-			sched.reset()
-		}
+		sched = nil
 		call(m.i, nil, token.NoPos, fn, nil)
 	}()
 	p.finish()
